@@ -152,7 +152,7 @@ func evalC02Main(test string) func(c *peCase) evalResult {
 func TestC02_Main(t *testing.T) {
 	haveBins(t, "stgutg_verif")
 	r := ev.New(t, "C02", "TestC02_Main")
-	n := ev.N(48, 4000)
+	n := ev.N(80, 4000)
 	maxR := 5
 	if ev.Tier() == "thorough" {
 		maxR = 10
@@ -181,7 +181,7 @@ func genC02Proc(t *rapid.T) *peCase {
 	n := rapid.IntRange(1, 6).Draw(t, "n_ues")
 	cfg := genConfig(t, cfgOpts{maxUEs: n + 1, suffixBias: true})
 	k := clamps{R: int64(n), E: int64(rapid.IntRange(1, n).Draw(t, "E"))}
-	if rapid.IntRange(0, 9).Draw(t, "with_later") == 0 {
+	if rapid.IntRange(0, 4).Draw(t, "with_later") == 0 {
 		// occasionally the sleeping procedures too (≈1 s each)
 		k.S = int64(rapid.IntRange(0, 1).Draw(t, "S"))
 		k.L = int64(rapid.IntRange(0, 1).Draw(t, "L"))
